@@ -26,7 +26,7 @@ func runC19(cfg *vh.Config) error {
 	}
 	distinct := vh.Distinct{}
 	caseNo := 0
-	inputs := fmtInputs(cfg, "c19", cfg.Scale(900, 60000), cfg.Scale(500, 30000), cfg.Scale(300, 20000))
+	inputs := fmtInputs(cfg, "c19", cfg.Scale(900, 25000), cfg.Scale(500, 12000), cfg.Scale(300, 8000))
 	for _, in := range inputs {
 		src := in.src
 		inS := fmt.Sprintf("%q", src)
